@@ -13,14 +13,17 @@ PROP = dict(
         "MM.C30.C30_witness_reconnect",
         "MM.C30.C30_witness_pollend",
         "MM.C30.C30_partial",
+        "MM.C30.C30_dopoll_refuted",
+        "MM.C30.C30_dopoll_partial",
     ],
     spec=True,
     chunk=6000,
     rule="case = a fresh real sleep.Manager (PersistState on, real state file) driven one stateMu critical section at a time: EVERY schedule "
-         "of enabled steps {Sleep, Wake, Poll-begin, OnPoll-invoke, OnPoll-return, Poll-end} x 2 concurrent Poll() invocations up to depth 10 "
+         "of enabled steps {Sleep, Wake, Poll-begin, OnPoll-invoke, OnPoll-return, Poll-end} x 2 concurrent Poll() invocations up to depth 9 "
          "(quick) / 12 (thorough) is forced on the implementation (Poll goroutines parked at the verif scheduling point after the first unlock "
          "and inside the OnPoll callback), plus random schedules of 8-37 steps with 1-3 Poll() invocations including disabled labels and "
-         "refused calls; observed per step: returned error, callbacks run, in-memory state, persisted state file; non-trivial = a step that ran "
+         "refused calls; agent level: the real Agent.doPoll parked at the scheduling point between its state check and DisconnectAll(), every "
+         "schedule of {Sleep, Wake, doPoll-start, doPoll-release} of length 4 and random longer ones; observed per step: returned error, callbacks run, in-memory state, persisted state file; non-trivial = a step that ran "
          "(not `disabled`)",
     nontrivial=lambda op, out: not out.startswith(("disabled", "ok st=AWAKE file=NONE ev=-")) and not op.startswith("reset"),
     trusted_base=[
@@ -32,7 +35,7 @@ PROP = dict(
     assumptions=[
         "callback errors and persistState write errors are not modelled",
         "Stop()/LoadState() (process start/stop) are outside the LTS; crash consistency of the state file is C34's subject",
-        "the agent-level doPoll check-then-DisconnectAll race is not covered by this check (hook agent.doPoll.before-disconnect delivered, not yet used)",
+        "agent level: only doPoll's final check-then-DisconnectAll is modelled (two steps); its reconnect / listener handling is not",
     ],
     manifest=dict(
         category="proof",
@@ -40,7 +43,7 @@ PROP = dict(
              "interleaving): C30_edges, C30_refusals, C30_persist_quiescent (reachability invariant), C30_poll_never_sleeps_awake_agent; the "
              "'no stale poll activity after a completed wake' clause is REFUTED on the code (C30_refuted + two witness schedules, replayed on "
              "the real Manager: open findings) and proved while no wake overtakes an in-flight poll (C30_partial); model tied to the code by "
-             "forcing every schedule up to depth 10/12 on the real Manager",
+             "forcing every schedule up to depth 9/12 on the real Manager",
         design_ref="DESIGN.md section 5 C30",
         note="Lean kernel; mutex atomicity trusted; one verif scheduling hook in Manager.Poll; callbacks succeed; timer replaced by explicit Poll()",
         technique="Lean 4 proof (LTS invariants) + machine-checked refutation + exhaustive small-scope schedule forcing on the real code",
